@@ -371,6 +371,13 @@ def verify_contract(cdef: ContractDef, timeout_ms=10000, want_smt2=1) -> Contrac
             # exception escaped the contract function itself (outside c.outcome): unexpected
             case.pending.append(("noexc", f"unexpected_exception[{e.exc_name}]", z3.BoolVal(False), list(ex.pc)))
             case.info["exception_detail"] = e.detail
+        except (Unsupported, PathAbort, RecursionError):
+            raise
+        except (AttributeError, TypeError, KeyError, IndexError, ValueError) as e:
+            # the postcondition could not even be evaluated on the value the real code produced (e.g. None where a
+            # tensor is specified): the clause is false on this (feasible) path
+            case.pending.append(("ensure", f"postcondition_not_evaluable[{type(e).__name__}]", z3.BoolVal(False), list(ex.pc)))
+            case.info["exception_detail"] = f"{type(e).__name__}: {e}"[:200]
         for lab, f, pc in ex.side_obligations:
             case.pending.append(("safety", lab, f, pc))
         return case
